@@ -5,7 +5,9 @@ import (
 	"flag"
 	"fmt"
 	"os"
+	"time"
 
+	"verif/harness/conc"
 	"verif/harness/flushenum"
 	"verif/harness/getenum"
 	"verif/harness/malformed"
@@ -28,14 +30,41 @@ var runners = map[string]runner{
 	"C12": {"model_checking", malformed.Run},
 	"C08": {"model_checking", flushenum.Run},
 	"C04": {"model_checking", sesshist.RunC04},
-	"C05": {"model_checking", sesshist.RunC05},
+	"C05": {"model_checking", func(rep *report.Report, tier string) {
+		sesshist.RunC05(rep, tier)
+		conc.RunC05Sched(rep, tier, ribhist.Budget(tier, 100*time.Second, 20*time.Minute))
+	}},
+	"C11": {"model_checking", conc.RunC11},
 	"C06": {"model_checking", sesshist.RunC06},
+}
+
+// children are the shard entry points: vworker -child <property> <tier> <part> <dumpfile>
+var children = map[string]func(rep *report.Report, tier, part string){
+	"C11": conc.ChildC11,
 }
 
 func main() {
 	flag.Set("logtostderr", "false")
 	flag.Set("stderrthreshold", "FATAL")
+	child := flag.Bool("child", false, "run one shard and dump the partial report")
 	flag.Parse()
+	if *child {
+		if flag.NArg() < 4 {
+			os.Exit(2)
+		}
+		f, ok := children[flag.Arg(0)]
+		if !ok {
+			fmt.Println("unknown child", flag.Arg(0))
+			os.Exit(2)
+		}
+		rep := report.New(flag.Arg(0), flag.Arg(1), "")
+		f(rep, flag.Arg(1), flag.Arg(2))
+		if err := rep.Dump(flag.Arg(3)); err != nil {
+			fmt.Println(err)
+			os.Exit(2)
+		}
+		return
+	}
 	if flag.NArg() < 2 {
 		fmt.Println("usage: vworker <property> <quick|thorough>")
 		os.Exit(2)
